@@ -1,6 +1,7 @@
 (* C17 — test helpers reconstruct the same action tree as the parser. (first layer) *)
 From Coq Require Import List PArith.
-Require Import Eliot.Base.Level Eliot.Model.Parser Eliot.Model.Testing Eliot.Proofs.TestingBasics.
+Require Import Eliot.Base.Level Eliot.Model.Parser Eliot.Model.Forest Eliot.Model.Testing Eliot.Proofs.TestingBasics.
+Require Import Eliot.Proofs.ParserTree Eliot.Proofs.ParserRun Eliot.Proofs.TestingLin Eliot.Proofs.TestingScan Eliot.Proofs.TestingSpec Eliot.Proofs.TestingTrunc.
 Import ListNotations.
 
 (* LoggedMessage.of_type returns exactly the messages of that type, in log order *)
@@ -8,3 +9,120 @@ Theorem C17_messages_of_type :
   forall all ty m, In m (messages_of_type all ty) <-> In m all /\ lm_mtype m = Some ty.
 Proof. exact messages_of_type_spec. Qed.
 Print Assumptions C17_messages_of_type.
+
+(* ---- second layer: all forests (Proofs/Testing{Lin,Scan,Spec,Trunc}.v) ------------------- *)
+
+Theorem C17_log : forall f : forest, map to_pmsg (llin f) = lin f.
+Proof. exact llin_lin. Qed.
+Print Assumptions C17_log.
+
+Theorem C17_log_ids : forall f : forest, map lm_id (llin f) = seq 0 (length (llin f)).
+Proof. exact llin_ids. Qed.
+Print Assumptions C17_log_ids.
+
+(* fromMessages rebuilds, for every action of every forest, exactly its own start and end
+   message and its direct children (recursively) in emission order *)
+Theorem C17_from_messages :
+  forall (f : forest) (u : nat) (T : tree) (l : level) (a : tree),
+    nth_error f u = Some T -> subtree_at T l = Some a -> is_act a = true ->
+    from_messages (S (max_depth (llin f))) u (l ++ [1%positive]) (llin f)
+    = TOk (logged_of (lin_id f u) u l a).
+Proof. exact from_messages_spec. Qed.
+Print Assumptions C17_from_messages.
+
+Theorem C17_prefix_matching :
+  forall (f : forest) (u : nat) (T : tree) (l : level) ty st ch (m : lmsg),
+    nth_error f u = Some T -> subtree_at T l = Some (TAct ty st ch) -> In m (llin f) -> lm_uuid m = u ->
+    (own l (lm_level m) = true <->
+       m = lstart (lin_id f u) u l ty \/ m = lend (lin_id f u) u l ty st (endpos 2 ch) \/
+       exists p ty', child_from 2 ch p = Some (TMsg ty') /\ m = lplain (lin_id f u) u (l ++ [p]) ty') /\
+    (child_start l (lm_level m) = true <->
+       exists p ty' st' ch', child_from 2 ch p = Some (TAct ty' st' ch') /\ m = lstart (lin_id f u) u (l ++ [p]) ty') /\
+    (own l (lm_level m) = true -> child_start l (lm_level m) = false).
+Proof. exact prefix_matching_llin. Qed.
+Print Assumptions C17_prefix_matching.
+
+(* of_type: one entry per action of that type, at every depth, in emission order *)
+Theorem C17_of_type :
+  forall (f : forest) (ty : positive),
+    of_type (llin f) ty = TOk (map (logged_at f) (acts_of_type f ty)).
+Proof. exact of_type_spec. Qed.
+Print Assumptions C17_of_type.
+
+Theorem C17_acts :
+  forall (f : forest) (u : nat) (l : level) (a : tree),
+    In (u, l, a) (acts f) <->
+    exists T, nth_error f u = Some T /\ subtree_at T l = Some a /\ is_act a = true.
+Proof. exact acts_In. Qed.
+Print Assumptions C17_acts.
+
+(* the helper's tree is the parser's tree for the same messages *)
+Theorem C17_same_as_parser :
+  forall (idf : level -> nat) (u : nat) (t : tree) (l : level),
+    shape_of_logged (logged_of idf u l t) = shape_of_node (node_of idf u (fun _ => true) l t).
+Proof. exact logged_node_shape. Qed.
+Print Assumptions C17_same_as_parser.
+
+Theorem C17_same_messages_as_parser :
+  forall (idf : level -> nat) (u : nat) (t : tree) (l : level),
+    mshape_of_logged (logged_of idf u l t) = mshape_of_node (node_of idf u (fun _ => true) l t).
+Proof. exact logged_node_same. Qed.
+Print Assumptions C17_same_messages_as_parser.
+
+Theorem C17_same_as_parser_task :
+  forall (f : forest) (u : nat) (T : tree) (l : level) (a : tree) (t : task),
+    nth_error f u = Some T -> subtree_at T l = Some a -> is_act a = true -> final_task f u t ->
+    exists root n,
+      task_root t = Some root /\ node_at root l = Some n /\
+      n = node_of (lin_id f u) u (fun _ => true) l a /\
+      shape_of_logged (logged_of (lin_id f u) u l a) = shape_of_node n /\
+      mshape_of_logged (logged_of (lin_id f u) u l a) = mshape_of_node n.
+Proof. exact same_as_parser. Qed.
+Print Assumptions C17_same_as_parser_task.
+
+Theorem C17_descendants :
+  forall (idf : level -> nat) (u : nat) (t : tree) (l : level),
+    logged_of idf u l t :: descendants (logged_of idf u l t) = pre_tree idf u l t.
+Proof. exact descendants_spec. Qed.
+Print Assumptions C17_descendants.
+
+Theorem C17_descendants_emission_order :
+  forall (idf : level -> nat) (u : nat) (t : tree) (l : level),
+    map first_msg (pre_tree idf u l t)
+    = filter (fun m => negb (is_completed (lm_status m))) (llin_tree idf u l t).
+Proof. exact pre_tree_emission. Qed.
+Print Assumptions C17_descendants_emission_order.
+
+Theorem C17_type_tree :
+  forall (idf : level -> nat) (u : nat) (t : tree) (l : level),
+    type_tree (logged_of idf u l t) = ttree_of t.
+Proof. exact type_tree_spec. Qed.
+Print Assumptions C17_type_tree.
+
+Theorem C17_succeeded :
+  forall (idf : level -> nat) (u : nat) (l : level) ty st ch,
+    succeeded (logged_of idf u l (TAct ty st ch)) = true <-> end_status st = PSucceeded.
+Proof. exact succeeded_iff. Qed.
+Print Assumptions C17_succeeded.
+
+(* truncated logs: of_type fails exactly when a started action of the type, or a started
+   descendant action, lacks its end message *)
+Theorem C17_of_type_truncated :
+  forall (f : forest) (ty : positive) (j : nat),
+    of_type (firstn j (llin f)) ty =
+    if forallb (ended f j) (started_of_type f ty j)
+    then TOk (map (logged_at f) (started_of_type f ty j))
+    else TValueError.
+Proof. exact of_type_truncated. Qed.
+Print Assumptions C17_of_type_truncated.
+
+Theorem C17_of_type_truncated_error :
+  forall (f : forest) (ty : positive) (j : nat),
+    of_type (firstn j (llin f)) ty = TValueError <->
+    exists x rel y,
+      In x (acts_of_type f ty) /\ In (start_at f x) (firstn j (llin f)) /\
+      subtree_at (act_tree x) rel = Some y /\ is_act y = true /\
+      In (start_at f (act_uuid x, act_level x ++ rel, y)) (firstn j (llin f)) /\
+      ~ In (end_at f (act_uuid x, act_level x ++ rel, y)) (firstn j (llin f)).
+Proof. exact of_type_truncated_error_desc. Qed.
+Print Assumptions C17_of_type_truncated_error.
